@@ -30,19 +30,25 @@ Oracle (definitions coded directly with whole-array NumPy shifts / accumulations
   icontract contracts on mask_2d_util.blurring_mask_2d_from / edge_1d_indexes_from / border_slim_indexes_from see
   every internal call.
 
-Validated against (tools/mutant.py, each keeps the repository suite green unless noted; quick tier):
-  caught  4- instead of 8-neighbourhood in check_if_edge_pixel
-  caught  lower-right diagonal neighbour ignored in check_if_edge_pixel (needs a pixel whose only masked neighbour
-          is that corner)
-  caught  in-bounds test `< shape-1` instead of `<=` (spurious error when the footprint touches the last column)
-  caught  x-range of the footprint taken from kernel_shape_native[0] (non-square kernels only)
-  caught  footprint range `(k+1)//2 -> k//2` (asymmetric footprint, last row dropped)
-  caught  out-of-frame cells in x silently skipped instead of raising (missing error)
-  caught  border walk to the right ignores the last column (needs an unmasked pixel on the last column)
-  caught  border walk upwards includes one pixel too few (`mask_2d[1:y, x]`, needs row 0 unmasked above the pixel)
-  caught  slim counter advanced only for edge pixels in edge_1d_indexes_from
-  caught  derive_grid.border built from edge_slim (needs an edge pixel that is not a border pixel)
-  caught  derive_mask.edge written with (x, y) swapped (suite stays green: its fixtures are symmetric)
+Validated against (tools/mutant.py; every break below makes the quick tier print VIOLATION):
+  repository suite stays green (699/699), i.e. only this check sees them
+    - lower-right diagonal neighbour ignored in check_if_edge_pixel (needs a pixel whose only masked neighbour is
+      that corner)
+    - diagonal neighbours ignored for pixels on the outer row/column only (4-neighbourhood on the frame)
+    - out-of-frame footprint cells in x silently skipped instead of raising (missing error)
+    - border walk to the right ignores the last column (needs an unmasked pixel in the last column of that row)
+    - border walk upwards ignores row 0 (`mask_2d[1:y, x]`)
+    - empty walk to the left not accepted (pixel in column 0 is a border pixel only via another direction)
+    - derive_mask.edge written with (x, y) swapped (the suite's fixtures are symmetric)
+  breaks listed in DESIGN that the repository suite also notices (1..13 baseline tests fail), caught here as well
+    - 4- instead of 8-neighbourhood in check_if_edge_pixel
+    - in-bounds test `< shape[1]-1` instead of `<=` / `0 <` instead of `0 <=` (spurious error when the footprint
+      touches the last column / row 0)
+    - x-range of the footprint taken from kernel_shape_native[0] (non-square kernels only)
+    - footprint range `(k+1)//2 -> k//2` (asymmetric footprint, last row dropped)
+    - border walk downwards counting the pixel itself
+    - slim counter advanced only for edge pixels in edge_1d_indexes_from
+    - derive_grid.border built from edge_slim (needs an edge pixel that is not a border pixel)
 """
 import numpy as np
 
@@ -97,14 +103,14 @@ def plan(tier, seed):
         total = (1 << (H * W)) - 1
         for s in range(0, total, CHUNK):
             e = min(total, s + CHUNK)
-            units.append({"kind": "enum", "H": H, "W": W, "start": s, "stop": e, "w": (e - s) * 2.5})
+            units.append({"kind": "enum", "H": H, "W": W, "start": s, "stop": e, "w": (e - s) * 5.5})
     for (h, w) in PAD_INNER[tier]:
         total = (1 << (h * w)) - 1
         for s in range(0, total, 256):
             e = min(total, s + 256)
             units.append({"kind": "pad", "H": h, "W": w, "start": s, "stop": e, "w": (e - s) * 70 * 0.35})
     for s in range(0, NRAND[tier], 50):
-        units.append({"kind": "rand", "start": s, "stop": s + 50, "w": 50 * 12.0})
+        units.append({"kind": "rand", "start": s, "stop": s + 50, "w": 50 * 8.0})
     return units
 
 
